@@ -45,11 +45,12 @@ CHECKS = {
             "variants out of 11) x (1-3 ordered branch patterns out of 14) x (fallback or not) x (one argument per variant) - the "
             "narrowing-by-pattern-order carve-outs; tail calls with arguments of other types, generics at union arguments, recursive "
             "aliases, declared return types; the test-suite and spec.md corpus; typed spawn/send/select systems (runtime families, "
-            "seeded random process systems, the select cross product); a fixed corpus of generated sequential programs.",
+            "seeded random process systems, the select cross product); an exhaustive family of 480 spread literals (explicit field "
+            "before / after / between spreads, colliding and fresh labels, four value types); a fixed corpus of generated programs.",
             "Trusted: the export of the type graph and of the value; Cycle back-references and type variables inside the inferred type "
-            "are not judged. In the generated and process families a nil is accepted at any position (InhabitsUpToNil) and programs "
-            "that rebind a name are not generated, because the pinned defects bound-variable-loses-nil / narrowing-survives-rebinding "
-            "strike there in a large share of programs; the strict relation is used everywhere else.",
+            "are not judged. In the generated and process families a nil is accepted at any position (InhabitsUpToNil), because the "
+            "pinned defect bound-variable-loses-nil strikes there in a large share of programs; the strict relation is used everywhere "
+            "else. The generated corpus has a fixed generator seed so that the open typing defects it meets can be pinned one by one.",
             "TLA+ statement of type soundness (membership relation of the type semantics); recorded runs of accepted programs validated by TLC"),
     "C02": ("seqlang", "model_checking",
             "spec/SeqLang.tla is a big-step evaluator of the documented sequential core written in TLA+ (value flow, nil short-circuit, "
